@@ -11,6 +11,14 @@ NOTE = ("Trusted: CrossHair 0.0.110 + z3, the overlay venv, the environment stub
         "isinstance shim), the harness oracles under /verif/vf. Grammars are a fixed corpus (classes cannot be symbolic); all bounds are in evidence.assumptions.")
 
 CLAIMED = {
+    "C07": dict(
+        text="For GE, structured GE, dynamic structured GE and the stack representation a genotype with fully symbolic genes (also after a symbolic "
+             "mutation / crossover) is mapped twice by the real genotype_to_phenotype, with arbitrary symbolic draws of the search's shared stream in "
+             "between; on every path the two programs must be structurally equal, mapping must make no draw on the shared stream (dSGE: only from inside "
+             "Genotype.get, and none on the second mapping) and must fail both times or neither. Path trees exhausted. Bounds: gene length <= 6, depth <= "
+             "3, corpus grammars with refined, dependent, list, tuple and union fields; stack mapper fuel-bounded.",
+        design_ref="DESIGN.md section 4 (C07)",
+    ),
     "C11": dict(
         text="Every program produced by the create/map/mutate/crossover pipelines (all deciders, all representations, grammars with nodes inside lists, "
              "tuples and unions), with all draws symbolic, is traversed by an independent reference that recomputes node count, distance to terminal, "
